@@ -24,7 +24,7 @@ ASSUMPTIONS = [
 
 
 def generate(rng, tier):
-    return gen.gen_case(rng, {"p_demux": 0.12, "p_mixed_pair": 0.02, "p_devnull": 0.05, "p_qbase64": 0.04, "p_quiet": 0.04, "p_nonascii_name": 0.04, "p_giant": 0.0008, "p_bam": 0.05, "p_same_r2": 0.03, "p_devfd": 0.05})
+    return gen.gen_case(rng, {"p_demux": 0.12, "p_mixed_pair": 0.02, "p_devnull": 0.05, "p_qbase64": 0.04, "p_quiet": 0.04, "p_nonascii_name": 0.04, "p_giant": 0.002, "p_huge": 0.006, "p_bam": 0.05, "p_same_r2": 0.03, "p_devfd": 0.05})
 
 
 def evaluate(case, ctx):
@@ -131,7 +131,7 @@ def main(seed, tier, args):
     import os
 
     n = args.cases or (4000 if tier == "quick" else 100000)
-    budget = args.budget or (100 if tier == "quick" else 900)
+    budget = args.budget or (150 if tier == "quick" else 900)
     conf, problems = conformance(seed, 24 if tier == "quick" else 200)
     rc, ev = engine.run_batch(__import__("props.c06", fromlist=["x"]), seed, tier, n, budget, extra_evidence=conf)
     if problems:
